@@ -44,9 +44,15 @@ pub fn tokenize<'a, 'b, 'c>(
             usize,
         ),
          (byte_pos, c)| {
-            let (token_kind, next_state) = get_state(&c, delimiter_start, delimiter_end, state);
+            let (token_kind, next_state, resumed) =
+                get_state(&c, delimiter_start, delimiter_end, state);
 
             if let Some(token_kind) = token_kind {
+                // `resumed` is the part of the start delimiter that was already consumed
+                // before `c` and now belongs to the next token.
+                let byte_pos = byte_pos - resumed.len();
+                let current = current - resumed.chars().count();
+
                 if (byte_pos - byte_start_pos) > 0 {
                     tokens.push(Token {
                         value: &source[byte_start_pos..byte_pos],
@@ -66,7 +72,7 @@ pub fn tokenize<'a, 'b, 'c>(
         },
     );
 
-    let (token_kind, _) = get_state(&' ', delimiter_start, delimiter_end, state);
+    let (token_kind, _, _) = get_state(&' ', delimiter_start, delimiter_end, state);
 
     let last_byte_pos = source.char_indices().last();
     let additional_token = match last_byte_pos {
@@ -132,51 +138,90 @@ fn check_delimiter_start<'a, 'b>(c: &char, delimiter_start: &'a str) -> State<'a
     }
 }
 
+/// Returns how many chars of `delimiter` are matched after reading `c`, given that
+/// `matched` chars were matched before and `c` does not continue that match:
+/// the longest proper prefix of `delimiter` that the text read so far ends with.
+fn resume_len(delimiter: &str, matched: usize, c: char) -> usize {
+    let delimiter: Vec<char> = delimiter.chars().collect();
+    let mut read = delimiter[..matched].to_vec();
+    read.push(c);
+
+    (1..=matched)
+        .rev()
+        .find(|len| read[read.len() - len..] == delimiter[..*len])
+        .unwrap_or(0)
+}
+
 fn get_state<'a, 'b>(
     c: &char,
     delimiter_start: &'a str,
     delimiter_end: &'b str,
     state: State<'a, 'b>,
-) -> (Option<TokenKind<'a, 'b>>, State<'a, 'b>) {
+) -> (Option<TokenKind<'a, 'b>>, State<'a, 'b>, &'a str) {
     match state {
         State::Text => match check_delimiter_start(c, delimiter_start) {
             State::DelimiterStart(delimiter_start_chars) => (
                 Some(TokenKind::Text),
                 State::DelimiterStart(delimiter_start_chars),
+                "",
             ),
-            _ => (None, State::Text),
+            _ => (None, State::Text, ""),
         },
         State::DelimiterStart(mut current_chars) => {
+            let matched = delimiter_start.chars().count() - current_chars.clone().count();
             let current_char = current_chars.next();
 
             match current_char {
                 Some(current_char) => {
                     if *c == current_char {
-                        (None, State::DelimiterStart(current_chars))
+                        (None, State::DelimiterStart(current_chars), "")
                     } else {
-                        (None, State::Text)
+                        // The start delimiter may begin inside the text read so far.
+                        match resume_len(delimiter_start, matched, *c) {
+                            0 => (None, State::Text, ""),
+                            len => {
+                                let mut chars = delimiter_start.char_indices();
+                                let resumed = chars
+                                    .nth(len - 1)
+                                    .map_or("", |(pos, _)| &delimiter_start[..pos]);
+                                let mut rest = delimiter_start.chars();
+                                rest.nth(len - 1);
+
+                                (Some(TokenKind::Text), State::DelimiterStart(rest), resumed)
+                            }
+                        }
                     }
                 }
-                None => (None, State::InDelimiter),
+                None => (None, State::InDelimiter, ""),
             }
         }
         State::InDelimiter => {
             let mut delimiter_end_chars = delimiter_end.chars();
             if *c == delimiter_end_chars.next().unwrap() {
-                (None, State::DelimiterEnd(delimiter_end_chars))
+                (None, State::DelimiterEnd(delimiter_end_chars), "")
             } else {
-                (None, state)
+                (None, state, "")
             }
         }
         State::DelimiterEnd(mut current_chars) => {
+            let matched = delimiter_end.chars().count() - current_chars.clone().count();
             let current_char = current_chars.next();
 
             match current_char {
                 Some(current_char) => {
                     if *c == current_char {
-                        (None, State::DelimiterEnd(current_chars))
+                        (None, State::DelimiterEnd(current_chars), "")
                     } else {
-                        (None, State::InDelimiter)
+                        // The end delimiter may begin inside the text read so far.
+                        match resume_len(delimiter_end, matched, *c) {
+                            0 => (None, State::InDelimiter, ""),
+                            len => {
+                                let mut rest = delimiter_end.chars();
+                                rest.nth(len - 1);
+
+                                (None, State::DelimiterEnd(rest), "")
+                            }
+                        }
                     }
                 }
                 None => (
@@ -185,6 +230,7 @@ fn get_state<'a, 'b>(
                         delimiter_end,
                     })),
                     check_delimiter_start(c, delimiter_start),
+                    "",
                 ),
             }
         }
